@@ -131,17 +131,36 @@ def discharge_all(obs, timeout_ms):
             ob.status, ob.backend, ob.detail, ob.time = r
 
 
-def run_native(prop, tier, seed):
+def start_native(prop, tier, seed):
     mod = registry.NATIVE.get(prop)
     if not mod or not os.path.exists(os.path.join(HERE, 'native', mod + '.py')):
         return None
     budget = registry.NATIVE_BUDGET[tier]
     cmd = ['/venv/bin/python', os.path.join(HERE, 'native', 'run.py'), prop, '--budget', str(budget),
            '--seed', str(seed), '--tier', tier]
+    out = open(os.path.join(HERE, 'out', 'tmp', 'native_%s.out' % prop), 'w+')
+    p = subprocess.Popen(cmd, stdout=out, stderr=subprocess.STDOUT, text=True, cwd=HERE, start_new_session=True)
+    return p, out, budget
+
+
+def finish_native(job):
+    p, out, budget = job
     try:
-        p = subprocess.run(cmd, capture_output=True, text=True, timeout=budget * 3 + 120, cwd=HERE)
+        p.wait(timeout=budget * 3 + 120)
     except subprocess.TimeoutExpired:
+        try:
+            os.killpg(p.pid, 9)
+        except Exception:
+            p.kill()
         return {'error': 'bounded oracle timed out', 'findings': []}
+    out.seek(0)
+    text = out.read()
+    out.close()
+
+    class P:
+        stdout = text
+        stderr = ''
+    p = P()
     for line in p.stdout.splitlines():
         if line.startswith('@@RESULT@@'):
             return json.loads(line[len('@@RESULT@@'):])
@@ -167,10 +186,11 @@ def main():
     os.environ['PYVC_TMP'] = os.path.join(HERE, 'out', 'tmp')
     os.makedirs(os.path.join(HERE, 'evidence'), exist_ok=True)
 
+    native_job = None if a.no_native else start_native(prop, tier, seed)
     obs, infos, problems, assumptions, ledgers = generate(prop)
     timeout_ms = 10000 if tier == 'quick' else 30000
     discharge_all(obs, timeout_ms)
-    native = None if a.no_native else run_native(prop, tier, seed)
+    native = None if native_job is None else finish_native(native_job)
 
     # ---- aggregate per obligation id
     agg = {}
